@@ -119,7 +119,9 @@ def random_tree(rnd, max_depth=3, max_items=6):
         for _ in range(n):
             r = rnd.random()
             if r < (0.45 if depth == 0 else 0.3) and depth < max_depth:
-                ch = Node("folder", rnd.choice(FOLDERS) if rnd.random() < 0.95 else None, nid())
+                # a folder may carry a file facet as well (the folder facet wins: it is walked, never listed as a file)
+                ch = Node("folder", rnd.choice(FOLDERS) if rnd.random() < 0.95 else None, nid(),
+                          **({"file": {"mimeType": "application/x-folderish"}} if rnd.random() < 0.2 else {}))
                 build(depth + 1, ch)
             elif r < 0.93:
                 extra = {}
